@@ -1395,6 +1395,18 @@ impl<'a> Elab<'a> {
                 }
             }
         }
+        // `X.map(path::to::function)` in a unit whose closure-maps are all on Options (`optionmap`): apply the function
+        if method == "map" && m.args.len() == 1 && self.u.optionmap && !self.u.resultmap {
+            if let Expr::Path(p) = &m.args[0] {
+                let n = path_to_string(&p.path);
+                let is_drop = n == "drop" || n == "mem::drop" || n == "std::mem::drop";
+                if !is_drop && !self.t.backparam_fns.contains_key(&n) && !self.u.argcall.iter().any(|(mm, a, _)| mm == "map" && *a == n) {
+                    let recv = self.fold_expr((*m.receiver).clone());
+                    let f = self.fold_expr(m.args[0].clone());
+                    return parse_quote!(match #recv { Some(__v) => Some(#f(__v)), None => None });
+                }
+            }
+        }
         // `X.map(drop)`: the value is destroyed, the shape stays
         if method == "map" && m.args.len() == 1 && matches!(&m.args[0], Expr::Path(p) if { let n = path_to_string(&p.path); n == "drop" || n == "mem::drop" || n == "std::mem::drop" }) {
             let head = annotated_block_head(&m.receiver);
@@ -2811,7 +2823,7 @@ impl<'a> Fold for Elab<'a> {
             for (from, to) in self.u.pathrename.iter() {
                 let fs: Vec<&str> = from.split("::").collect();
                 if segs.len() >= fs.len() && segs.iter().zip(fs.iter()).all(|(a, b)| a == b) {
-                    let mut new_segs: Vec<PathSegment> = vec![PathSegment { ident: ident(to), arguments: PathArguments::None }];
+                    let mut new_segs: Vec<PathSegment> = to.split("::").map(|t| PathSegment { ident: ident(t), arguments: PathArguments::None }).collect();
                     new_segs.extend(p.segments.iter().skip(fs.len()).cloned());
                     p.segments = new_segs.into_iter().collect();
                     p.leading_colon = None;
